@@ -191,4 +191,20 @@ theorem late_copy_unsafe_with_two_consumers :
 
 end LateCopy
 
+/-! The same for the unbounded queue: `PV.Queues.USQLate` links a new page after the post for its first entry. -/
+section LateLink
+open PV.Queues PV.Queues.USQ
+
+/-- page size 1, two items: the second item opens page 1; the consumer, woken by its post, steps off page 0 before the link exists -/
+def lateLinkTrace : List USQLate.Label :=
+  [.pPage, .pWrite, .pPost, .pPage, .pWrite, .pPost, .cWait, .cPage, .cRead, .cWait, .cPage]
+
+/-- linking a new page after the semaphore post is unsafe: there is a schedule on which the consumer follows a null `next`
+    (contrast `usq_safe`, which holds for every schedule of the real order: allocate, link, write, post). -/
+theorem late_link_unsafe :
+    ∃ tr, (USQLate.runTrace ⟨1, 2⟩ USQLate.init tr).map (fun s => s.base.bad) = some true :=
+  ⟨lateLinkTrace, by decide +kernel⟩
+
+end LateLink
+
 end PV.Props.C16
